@@ -23,6 +23,7 @@ struct CmdSpec {
   std::vector<std::string> outs, reads, hidden;
   std::string depfile, rsp, print;
   bool msvc = false, restat = false, gen = false, copy = false, depall = false;
+  bool detach = false;       // the tool closes stdout/stderr when done with its work but lives on until ninja waits for it
   bool notes_last = false;   // msvc: the /showIncludes notes come after the tool's own output, the last one without a newline
   // how this tool spells names in its depfile / showIncludes output (canonical name -> spelling), and
   // whether it names all of its outputs as depfile targets (dsp=<hex of a=./a;b=x/../b>, dall=1)
@@ -54,7 +55,7 @@ struct Fault {
 };
 
 struct Event {
-  enum Kind { kStart, kFinish, kKilled, kInterrupt, kWait, kToken, kEdit };
+  enum Kind { kStart, kFinish, kKilled, kInterrupt, kWait, kToken, kEdit, kReap };
   Kind kind;
   int cmd = -1;             // index into Run::cmds
   int status = 0;           // kFinish
